@@ -196,6 +196,23 @@ def main(d, tier):
         if ok and not (np.asarray(oh).shape == exp.shape and np.allclose(oh, exp, atol=0, rtol=0)):
           V(f'onehot|nc={nc}|{lab}|{on}', 'onehot differs', nc=nc, lab=lab)
         res['nontrivial'].append(core.h(['onehot', nc, lab, on]))
+  # narrow label dtypes against class counts on both sides of the dtype's range, the -1
+  # "ignore" label (an all-off row) and labels >= num_classes (all-off as well)
+  for dt, ncs in (('uint8', (4, 255, 256, 257, 300)), ('int8', (4, 127, 128, 129, 256)),
+                  ('int16', (4, 300)), ('uint16', (4, 300)), ('int32', (4, 300)), ('int64', (4, 300))):
+    for nc in ncs:
+      # jax without x64 truncates int64 inputs to int32: values outside int32 are outside the alphabet
+      info = np.iinfo('int32' if dt == 'int64' else dt)
+      vals = sorted({v for v in (0, 1, 5, nc - 1, nc, nc - 256, -1, info.max, info.min)
+                     if info.min <= v <= info.max})
+      L = np.array([vals, vals[::-1]], dtype=dt)
+      ok, oh = guarded('onehot', lambda: common_utils.onehot(L, nc), nc=nc, dtype=dt)
+      exp = (L.astype(np.int64)[..., None] == np.arange(nc, dtype=np.int64)).astype(np.float32)
+      if ok and not (np.asarray(oh).shape == exp.shape and np.array_equal(np.asarray(oh), exp)):
+        bad = np.argwhere(np.asarray(oh) != exp)[:3].tolist() if np.asarray(oh).shape == exp.shape else 'shape'
+        V(f'onehot-dtype|{dt}|nc={nc}', f'onehot of {dt} labels {vals} with {nc} classes is not '
+          f'(label == class index): first differing (row, col, class) {bad}', nc=nc, dtype=dt)
+      res['nontrivial'].append(core.h(['onehot-dtype', dt, nc]))
 
   # -------------------------------------------------------- prefetch_to_device
   class Boom(Exception):
